@@ -63,7 +63,8 @@ def interval(n, dt):
     return a, b
 
 
-def query(n, dt, negate=True):
+def query(n, dt, mode="late"):
+    """mode 'late': still deferring after n deferrals; 'early': released before n deferrals; 'exact': the reachability witness"""
     test, upd, glob = extract()
     ctx = fp.Ctx([glob])
     d = ctx.var("d0")
@@ -78,7 +79,12 @@ def query(n, dt, negate=True):
         conds.append(c)
         cur = ctx.define(fp.lift(nd), "d")
     exact = fp.b_and(*(conds[:n] + [fp.b_not(conds[n])]))
-    goal = fp.b_not(exact).s if negate else exact.s
+    if mode == "late":
+        goal = fp.b_and(*conds[:n + 1]).s
+    elif mode == "early":
+        goal = fp.b_not(fp.b_and(*conds[:n])).s
+    else:
+        goal = exact.s
     return fp.script(ctx, [goal], ["d0"]), (a, b)
 
 
@@ -98,15 +104,50 @@ def deferrals_real(delay, dt):
 
 
 def expected(delay, dt):
+    """ceil(delay/dt) of the two binary64 numbers taken literally"""
     import math
     q = Fraction(delay) / Fraction(dt)
     return max(0, math.ceil(q - TOL))
 
 
+def expected_decimal(delay, dt):
+    """ceil(delay/dt) of the decimal numbers the user wrote (shortest decimal representations of the two doubles)"""
+    import math
+    from decimal import Decimal
+    q = Fraction(Decimal(repr(float(delay)))) / Fraction(Decimal(repr(float(dt))))
+    return max(0, math.ceil(q))
+
+
+def acceptable(delay, dt):
+    """the statement says ceil(delay/dt); where the literal binary quotient and the decimal one the user wrote
+    disagree (delay = n*dt in decimals, e.g. 0.05/0.01 or 1.5/0.3) either reading is accepted"""
+    return {expected(delay, dt), expected_decimal(delay, dt)}
+
+
+def solve_excluding(smt, tmo, dt, rounds=16):
+    """cvc5 on the query; models at which the real scheduler's count is an accepted reading (points where the two
+    readings of ceil differ) are excluded one by one and the query repeated -> (verdict, out, excluded)"""
+    excluded = []
+    for _ in range(rounds):
+        r, out = fp.solve(smt, tmo)
+        if r != "sat":
+            return r, out, excluded
+        vals = fp.model_values(out, ["d0"])
+        if "d0" not in vals:
+            return r, out, excluded
+        d = vals["d0"]
+        if deferrals_real(d, dt) in acceptable(d, dt) and expected(d, dt) != expected_decimal(d, dt):
+            excluded.append(d)
+            smt = smt.replace("(check-sat)", "(assert (not (fp.eq d0 %s)))\n(check-sat)" % fp.fpconst(d), 1)
+            continue
+        return r, out, excluded
+    return "unknown", "more than %d ambiguous points excluded" % rounds, excluded
+
+
 def replay(case):
     delay, dt = float(case["delay"]), float(case["dt"])
-    got, want = deferrals_real(delay, dt), expected(delay, dt)
-    return got != want, "DelayedEvent(delay=%r) with dt=%r is deferred %d times, ceil(delay/dt) = %d" % (delay, dt, got, want)
+    got, want = deferrals_real(delay, dt), acceptable(delay, dt)
+    return got not in want, "DelayedEvent(delay=%r) with dt=%r is deferred %d times, ceil(delay/dt) = %s" % (delay, dt, got, sorted(want))
 
 
 def run_part(rep, tier):
@@ -118,18 +159,30 @@ def run_part(rep, tier):
     try:
         for dt in dts:
             for n in range(1, MAXN + 1):
-                smt, iv = query(n, dt, True)
-                jobs.append((dt, n, smt, iv, "main"))
-        smt, iv = query(3, 0.1, False)
+                for mode in ("late", "early"):
+                    smt, iv = query(n, dt, mode)
+                    jobs.append((dt, n, smt, iv, "main"))
+        smt, iv = query(3, 0.1, "exact")
         jobs.append((0.1, 3, smt, iv, "witness"))
     except fp.Unsupported as e:
         rep.inconcl("delay countdown could not be encoded from the source: %s" % e)
         return {"queries": 0}
     with ThreadPoolExecutor(max_workers=harness.nprocs()) as ex:
-        res = list(ex.map(lambda j: fp.solve(j[2], tmo), jobs))
+        res = list(ex.map(lambda j: solve_excluding(j[2], tmo, j[0]) if j[4] == "main" else fp.solve(j[2], tmo) + ([],), jobs))
     samples = []
     unsat = 0
-    for (dt, n, smt, iv, kind), (r, out) in zip(jobs, res):
+    ambiguous = []
+    # the delays a user writes: n*dt in decimals (one double each) - the points where the two readings may differ
+    from decimal import Decimal
+    for dt in dts:
+        for n in range(1, MAXN + 1):
+            d = float(n * Decimal(repr(dt)))
+            if deferrals_real(d, dt) not in acceptable(d, dt):
+                g_, w_ = deferrals_real(d, dt), expected_decimal(d, dt)
+                rep.candidate("delay-fp:dt=%g:%s" % (dt, "late-by-1" if g_ == w_ + 1 else ("early-by-1" if g_ == w_ - 1 else "off-by-%d" % (g_ - w_))),
+                              {"kind": "fp", "delay": d, "dt": dt}, "delay=%r dt=%r: float countdown defers %d times, expected %d" % (d, dt, g_, w_))
+    for (dt, n, smt, iv, kind), (r, out, excl) in zip(jobs, res):
+        ambiguous += [(dt, x) for x in excl]
         if kind == "witness":
             if r != "sat":
                 rep.inconcl("FP reachability witness (dt=0.1, n=3) is %s" % r)
@@ -142,6 +195,9 @@ def run_part(rep, tier):
                 rep.inconcl("FP counterexample for dt=%s n=%d could not be parsed" % (dt, n))
                 continue
             g_, w_ = deferrals_real(vals["d0"], dt), expected(vals["d0"], dt)
+            if g_ in acceptable(vals["d0"], dt):
+                rep.inconcl("FP model for dt=%s n=%d (delay=%r) does not violate on the real scheduler" % (dt, n, vals["d0"]))
+                continue
             rep.candidate("delay-fp:dt=%g:%s" % (dt, "late-by-1" if g_ == w_ + 1 else ("early-by-1" if g_ == w_ - 1 else "off-by-%d" % (g_ - w_))),
                           {"kind": "fp", "delay": vals["d0"], "dt": dt},
                           "delay=%r dt=%r: float countdown defers %d times, expected %d" % (
@@ -153,7 +209,8 @@ def run_part(rep, tier):
     # canary: the bare countdown (delay > 0, delay -= dt) must be refuted for dt = 0.1
     rep.canary("bare-float-countdown(dt=0.1)", _canary())
     return {"queries": len(jobs), "unsat": unsat, "samples": samples, "solver": {k: v for k, v in fp.STATS.items() if k != "samples"},
-            "smt_sample": fp.STATS["samples"][:1], "dts": dts, "max_deferrals": MAXN}
+            "smt_sample": fp.STATS["samples"][:1], "dts": dts, "max_deferrals": MAXN,
+            "ambiguous_points_excluded": [{"dt": a, "delay": b, "literal_ceil": expected(b, a), "decimal_ceil": expected_decimal(b, a)} for a, b in ambiguous[:20]]}
 
 
 def _canary():
